@@ -14,15 +14,15 @@ from shared import atomic_call
 
 # effect id -> (description, properties it matters for)
 EFFECTS = {
-    "flowmap-mutation": ("inserts into / removes from the flow table", ("C06", "C07", "C10", "C15")),
-    "closed-flag-write": ("sets the stream's closed-for-writing flag", ("C05", "C12")),
-    "inbound-dispatch": ("puts data on a stream's inbound queue", ("C02", "C03")),
-    "inbound-receive": ("takes data off a stream's inbound queue", ("C02", "C05")),
-    "stream-buf-write": ("replaces the stream's read buffer", ("C02", "C05")),
+    "flowmap-mutation": ("inserts into / removes from the flow table", ("C02", "C05", "C06", "C07", "C08", "C10", "C15")),
+    "closed-flag-write": ("sets the stream's closed-for-writing flag", ("C04", "C05", "C06", "C08", "C12")),
+    "inbound-dispatch": ("puts data on a stream's inbound queue", ("C02", "C03", "C05", "C10")),
+    "inbound-receive": ("takes data off a stream's inbound queue", ("C02", "C03", "C05", "C13")),
+    "stream-buf-write": ("replaces the stream's read buffer", ("C02", "C05", "C13")),
     "datagram-receive": ("takes datagrams off the datagram queue", ("C11",)),
-    "outbound-receive": ("takes messages off the outbound queue", ("C02", "C08")),
+    "outbound-receive": ("takes messages off the outbound queue", ("C02", "C08", "C05")),
     "last-pong-write": ("writes the last-pong timestamp", ("C16",)),
-    "client-maps-mutation": ("mutates the UDP client id maps", ("C01",)),
+    "client-maps-mutation": ("mutates the UDP client id maps", ("C01", "C11")),
     "tls-identity-store": ("replaces the shared TLS identity", ("C17",)),
 }
 
